@@ -4754,4 +4754,22 @@ pub mod verif_hooks {
 	) {
 		a.write_downstream_hmacs(position, w)
 	}
+	/// The shared secrets of the hops of `path`, first hop first.
+	pub fn hop_shared_secrets(path: &Path, session_priv: &SecretKey) -> Vec<[u8; 32]> {
+		let secp_ctx = Secp256k1::new();
+		construct_onion_keys_generic(&secp_ctx, &path.hops, None, session_priv)
+			.map(|(key, ..)| key.secret_bytes())
+			.collect()
+	}
+	pub fn process_fulfill(
+		attribution_data: Option<AttributionData>, shared_secret: &[u8], hold_time: u32,
+	) -> AttributionData {
+		process_fulfill_attribution_data(attribution_data, shared_secret, hold_time)
+	}
+	pub fn decode_fulfill<L: Logger>(
+		logger: &L, path: &Path, session_priv: &SecretKey, attribution_data: AttributionData,
+	) -> Vec<u32> {
+		let secp_ctx = Secp256k1::new();
+		decode_fulfill_attribution_data(&secp_ctx, logger, path, session_priv, attribution_data)
+	}
 }
